@@ -358,7 +358,12 @@ def _calls(repo, rep):
     if defs:
         asg = [w for w in A.walk(defs[0].args[0]) if isinstance(w, A.NodeV)
                and w.kind == "Assignment"]
-        ok = bool(asg) and A.show(asg[0].args[2]) == "True" and \
+        # the 'local' flag must be given as True at the construction site
+        # (an omitted argument falls back to whatever the node class says)
+        local = asg[0].arg("local", ("names", "expression", "local")) \
+            if asg else None
+        ok = bool(asg) and local is not None and A.show(local) == "True" \
+            and len(asg[0].args) > 1 and \
             "rsplit" in A.show(asg[0].args[1], limit=8)
     rep.check(ok, "R09.3", f.qualname, "'macroname' is a *local* definition "
               "wrapped around the macro use, bound to the last path segment "
@@ -459,6 +464,10 @@ def _calls(repo, rep):
                   % (sorted(seeded), sorted(bnames)),
                   construct="scope-seeds", where=L.where(rf),
                   detail="seeds %s" % hit)
+    from . import c01, c18
+    L.borrow(repo, rep, "R09.2", "C01", c01.order,
+             ("order:define-slot><define>",))
+    L.borrow(repo, rep, "R09.3", "C18", c18._tables, ("declare-first",))
     # define-macro: stored, and rendered in place through an internal use
     eff = [it for it, c in tr if isinstance(it, A.Effect)
            and it.kind == "setitem" and it.target == "self._macros"]
